@@ -28,14 +28,14 @@ func genCase(r *gen.Rand, o *gen.Out, eng, focus string) (caseCfg, []string) {
 	// graceful stop while draining, 3 Start inside a terminating run's tail, 4 Start overlapping the
 	// nested Start of a recovery, 5 overlapping waits, 6 shutdown, 7 retries to exhaustion, 8 store
 	// failures, 9 v1 tomb bookkeeping race)
-	w := []int{40, 8, 8, 8, 8, 7, 7, 6, 8, 5, 8, 5, 5}
+	w := []int{40, 8, 8, 8, 8, 7, 7, 6, 8, 5, 8, 5, 5, 6}
 	switch focus {
 	case "c10":
-		w = []int{36, 12, 10, 0, 0, 2, 12, 12, 6, 10, 14, 3, 3}
+		w = []int{36, 12, 10, 0, 0, 2, 12, 12, 6, 10, 14, 3, 3, 3}
 	case "c11":
-		w = []int{36, 3, 0, 14, 12, 14, 4, 3, 10, 4, 3, 12, 12}
+		w = []int{36, 3, 0, 14, 12, 14, 4, 3, 10, 4, 3, 12, 12, 12}
 	case "c12":
-		w = []int{50, 10, 0, 12, 0, 10, 4, 4, 4, 6, 16, 2, 3}
+		w = []int{50, 10, 0, 12, 0, 10, 4, 4, 4, 6, 16, 2, 3, 3}
 	}
 	fam := r.Pick(w...)
 	forceBias := focus == "c12"
@@ -311,6 +311,27 @@ func genCase(r *gen.Rand, o *gen.Out, eng, focus string) (caseCfg, []string) {
 		if r.Chance(1, 3) {
 			add("start", "settle", "stop:"+gf(), "settle")
 		}
+	case 13: // 2–3 sources; the Open of a NON-FIRST source (or of a DLQ / the destination) fails once, so the
+		// Start's open phase must roll back every plugin it opened; then Start again with the fault gone
+		n := r.Range(2, 3)
+		add(fmt.Sprintf("sources:%d", n))
+		switch r.Pick(6, 2, 2) {
+		case 0:
+			add(fmt.Sprintf("openfail:%d", r.Range(2, n)))
+			if r.Chance(1, 4) {
+				add(fmt.Sprintf("openfail:%d", r.Range(2, n)))
+			}
+		case 1:
+			add("dlqopenfail")
+		case 2:
+			add("dstopenfail")
+		}
+		// v2: the first Start returns the error; v1: it returns nil, a node fails to open, the run recovers
+		add("start", "settle", past, "settle", "start", "settle")
+		if r.Chance(1, 2) {
+			add("start", "settle")
+		}
+		add("stop:"+gf(), "settle", past, "settle")
 	case 8: // store failures
 		switch r.Pick(2, 2, 2) {
 		case 0:
